@@ -41,6 +41,15 @@ type LoopContract struct {
 	HasMod     bool
 }
 
+// Interference is the rely part of a rely/guarantee argument at one lock acquisition (race mode).
+type Interference struct {
+	Label string
+	Lock  *CExpr
+	N     int
+	Mods  []string
+	Rely  *Clause
+}
+
 type FuncContract struct {
 	Kind     string // func, iface, extern
 	Target   string
@@ -53,6 +62,7 @@ type FuncContract struct {
 	Requires []*Clause
 	Assumes  []*Clause // object invariants: assumed in every mode (never peer-controlled data)
 	SafetyRoot bool
+	Interferences []*Interference
 	Inst       string
 	Opaque     bool // never inlined by the safety sweep (checked as its own root, used through its contract)
 	Reflective bool // body uses reflection: outside the verifier in every mode
@@ -133,7 +143,7 @@ func newDB() *DB {
 		specs: map[string]*SpecFun{}, fields: map[string]*FieldAnn{}, locks: map[string]*LockAnn{}, modsets: map[string][]string{}}
 }
 
-var clauseKeywords = map[string]bool{"assumes": true, "defines": true, "modset": true, "end": true, "filter": true, "func": true, "iface": true, "extern": true, "ghost": true, "field": true, "lock": true,
+var clauseKeywords = map[string]bool{"assumes": true, "interference": true, "defines": true, "modset": true, "end": true, "filter": true, "func": true, "iface": true, "extern": true, "ghost": true, "field": true, "lock": true,
 	"requires": true, "ensures": true, "modifies": true, "loop": true, "define": true, "spec": true, "axiom": true,
 	"let": true, "lemma": true, "assume": true}
 
@@ -534,6 +544,38 @@ func (db *DB) parseClause(text, file string, line int, pkg string, cur **FuncCon
 			return err
 		}
 		fc.Assumes = append(fc.Assumes, c)
+	case "interference":
+		// interference <label>: at lock <addr-expr> #<n> modifies <items> rely <expr>
+		// (race mode only) before the n-th acquisition of that mutex in this function other threads may
+		// have changed <items> in any way that satisfies <expr>; old() in <expr> is the state before.
+		mi := strings.Index(rest, " modifies ")
+		ri := strings.Index(rest, " rely ")
+		ai := strings.Index(rest, "at lock ")
+		if mi < 0 || ri < mi || ai < 0 || ai > mi {
+			return fmt.Errorf("interference needs: <label>: at lock <expr> #<n> modifies <items> rely <expr>")
+		}
+		itf := &Interference{Label: strings.TrimSuffix(strings.TrimSpace(rest[:ai]), ":"), N: 1}
+		lk := strings.TrimSpace(rest[ai+len("at lock ") : mi])
+		if h := strings.LastIndex(lk, "#"); h >= 0 {
+			fmt.Sscanf(lk[h+1:], "%d", &itf.N)
+			lk = strings.TrimSpace(lk[:h])
+		}
+		le, err := parseCExpr(lk)
+		if err != nil {
+			return err
+		}
+		itf.Lock = le
+		for _, m := range splitTop(rest[mi+len(" modifies ") : ri]) {
+			if m = strings.TrimSpace(m); m != "" {
+				itf.Mods = append(itf.Mods, m)
+			}
+		}
+		c, err := mkClause("rely", itf.Label+": "+strings.TrimSpace(rest[ri+len(" rely "):]))
+		if err != nil {
+			return err
+		}
+		itf.Rely = c
+		fc.Interferences = append(fc.Interferences, itf)
 	case "requires", "ensures", "axiom", "lemma":
 		c, err := mkClause(kw, rest)
 		if err != nil {
